@@ -6,9 +6,10 @@ namespace FV.Drv.C17
 open FV FV.C17
 
 /-! The harness's own interpretations (fv/harness/c17_rt.py): P, and W = PrioritizedInterpretation(W1, W2, W3). -/
-def userLeaves : List String := ["P", "W1", "W2", "W3"]
+def userLeaves : List String := ["P", "W1", "W2", "W3", "Q"]
 def userChains : List (String × List String) := [("W", ["W1", "W2", "W3"])]
-def userRules : List (String × List String) := [("P", ["a", "bin"]), ("W2", ["b"]), ("W3", ["a", "b"])]
+def userRules : List (String × List String) :=
+  [("P", ["a", "bin"]), ("W2", ["b"]), ("W3", ["a", "b"]), ("Q", ["b"])]
 
 /-- funsor's tables (regenerated from /repo) + the harness's. -/
 def env : Env :=
@@ -17,7 +18,7 @@ def env : Env :=
 
 def observable (h : String) : Bool := userLeaves.contains h || h == "subst"
 
-def parseCtx (s : String) : Ctx :=
+def parseCtxAtom (s : String) : Ctx :=
   if s == "memoize" then .memoize
   else if s == "memoS1" then .memoShared 1
   else if s == "memoS2" then .memoShared 2
@@ -25,6 +26,23 @@ def parseCtx (s : String) : Ctx :=
   else if s == "subst" then .subst true
   else if s == "subst0" then .subst false
   else .named s
+
+/-- ctx ::= NAME | memoize | memoS1 | tape | subst | subst0
+          | (memoof CID NAME)      the object `Memoize(NAME)` built elsewhere (own cache CID)
+          | (prioof NAME NAME)     the object `PrioritizedInterpretation(NAME, NAME)` built elsewhere -/
+def parseCtx : Sexp → Option Ctx
+  | .atom a => some (parseCtxAtom a)
+  | .list [.atom "memoof", c, .atom n] => do
+      let cid ← c.asNat?
+      let b ← env.named n
+      pure (.built (.memo cid false b))
+  | .list [.atom "prioof", .atom a, .atom b] => do
+      let x ← env.named a
+      let y ← env.named b
+      match mkPrio [x, y] with
+      | .ok p => pure (.built p)
+      | .error _ => none
+  | _ => none
 
 mutual
 def parseProg : Nat → Sexp → Option Prog
@@ -36,8 +54,12 @@ def parseProg : Nat → Sexp → Option Prog
       let armed ← b.asBool?
       let tok ← t.asNat?
       pure (Prog.probe k armed tok)
-  | f + 1, .list [.atom "with", .atom c, b] => (parseProg f b).map (Prog.withI (parseCtx c))
-  | f + 1, .list [.atom "deco", .atom c, b] => (parseProg f b).map (Prog.deco (parseCtx c))
+  | f + 1, .list [.atom "with", c, b] => do
+      let cx ← parseCtx c
+      (parseProg f b).map (Prog.withI cx)
+  | f + 1, .list [.atom "deco", c, b] => do
+      let cx ← parseCtx c
+      (parseProg f b).map (Prog.deco cx)
   | f + 1, .list [.atom "catch", b] => (parseProg f b).map Prog.catch
   | f + 1, .list [.atom "quiet", b] => (parseProg f b).map Prog.quiet
   | _ + 1, .list [.atom "applyopt", .atom k, b, t] => do
@@ -82,7 +104,7 @@ def handle (args : List Sexp) : String :=
       let r := names.foldl (fun (acc : Except Err Stack) n =>
         match acc with
         | .error e => .error e
-        | .ok s => (enter env (parseCtx n) s 0).map Prod.fst) (.ok s0)
+        | .ok s => (enter env (parseCtxAtom n) s 0).map Prod.fst) (.ok s0)
       match r with
       | .ok s => "ok " ++ canonStack s
       | .error e => "ok " ++ e.canon
@@ -93,7 +115,7 @@ def handle (args : List Sexp) : String :=
       let r := names.foldl (fun (acc : Except Err Stack) n =>
         match acc with
         | .error e => .error e
-        | .ok s => (enter env (parseCtx n) s 0).map Prod.fst) (.ok s0)
+        | .ok s => (enter env (parseCtxAtom n) s 0).map Prod.fst) (.ok s0)
       match r with
       | .ok s => match top? s with
         | some t => "ok " ++ (match handler env k t with | some h => h | none => "-")
